@@ -1153,8 +1153,9 @@ def build_unit(repo, unit, spec, prelude_texts, probe=False):
             m = re.search(r"/\*@%s:contract\{\*/(.*?)/\*@\}\*/" % re.escape(name), tw, re.S)
             if m:
                 c = m.group(1)
-                if re.search(r"\bensures\b", c):
-                    c2 = re.sub(r"\bensures\b", "ensures false,", c, count=1)
+                # the clause keyword, not the closure-specification method `f.ensures(..)`
+                if re.search(r"(?<![.\w])ensures\b(?!\s*\()", c):
+                    c2 = re.sub(r"(?<![.\w])ensures\b(?!\s*\()", "ensures false,", c, count=1)
                 else:
                     dm = re.search(r"\bdecreases\b", c)
                     c2 = (c[:dm.start()] + " ensures false,\n" + c[dm.start():]) if dm else (c.rstrip().rstrip(",") + ",\n ensures false,\n")
